@@ -24,14 +24,16 @@ From GV Require Import model.Utf8 gen.TablesLexer.
 Import ListNotations.
 Open Scope N_scope.
 
-Inductive outcome (A : Type) := Ok (a : A) | Err (c : N) | Panic | Fuel.
+(* the two errors of the tokenizer: "Unhandled character: c" and "Unterminated quoted string: missing closing q" *)
+Inductive lex_error := Unhandled (c : N) | Unterminated (quote : N).
+Inductive outcome (A : Type) := Ok (a : A) | Err (e : lex_error) | Panic | Fuel.
 Arguments Ok {A} a.
-Arguments Err {A} c.
+Arguments Err {A} e.
 Arguments Panic {A}.
 Arguments Fuel {A}.
 
 Definition bind {A B} (o : outcome A) (f : A -> outcome B) : outcome B :=
-  match o with Ok a => f a | Err c => Err c | Panic => Panic | Fuel => Fuel end.
+  match o with Ok a => f a | Err e => Err e | Panic => Panic | Fuel => Fuel end.
 Notation "'do' x <- e ; k" := (bind e (fun x => k)) (at level 200, x name, e at level 100, k at level 200).
 
 Definition str := list N.
@@ -203,11 +205,34 @@ Definition num_pred (period_found : bool) (c : N) : bool * bool :=
   else if c =? 46 then (true, true)
   else (false, period_found).
 
-(* Tokenizer::take_quoted_string *)
+(* Tokenizer::take_quoted_string (start quote consumed already):
+     let mut s = String::new();
+     loop { s.push_str(take_while(|c| c != quote));
+            if next().is_none() { return Err(unterminated) }          // consume the end quote
+            if peek() == Some(quote) { next(); s.push(quote); continue }   // doubled quote = escaped quote
+            return Ok(s) }
+   every iteration consumes at least the quote: fuel = characters of the query + 1 *)
+Fixpoint quoted_loop (fuel : nat) (quote : N) (q : str) (st : state) (s : str) : outcome (str * state) :=
+  match fuel with
+  | O => Fuel
+  | S f =>
+    do r <- take_while (stateless (fun c => negb (c =? quote))) tt q st;
+    let s := s ++ fst r in
+    do n <- next q (snd r);
+    match fst n with
+    | None => Err (Unterminated quote)
+    | Some _ =>
+      do p <- peek q (snd n);
+      match fst p with
+      | Some c =>
+        if c =? quote then do n2 <- next q (snd p); quoted_loop f quote q (snd n2) (s ++ [quote])
+        else Ok (s, snd p)
+      | None => Ok (s, snd p)
+      end
+    end
+  end.
 Definition take_quoted_string (quote : N) (q : str) (st : state) : outcome (str * state) :=
-  do r <- take_while (stateless (fun c => negb (c =? quote))) tt q st;
-  do n <- next q (snd r);                                   (* let _ = self.state.next(); *)
-  Ok (fst r, snd n).
+  quoted_loop (S (length q)) quote q st [].
 
 (* Tokenizer::next_token, after `let c = match self.state.peek()`; one definition per arm kind *)
 Definition run_arm (a : arm) (c : N) (q : str) (st : state) : outcome (token * state) :=
@@ -251,7 +276,7 @@ Definition run_arm (a : arm) (c : N) (q : str) (st : state) : outcome (token * s
     do n <- next q st;                                          (* take start quote *)
     do r <- take_quoted_string 34 q (snd n);
     Ok (TWord (fst r) (Some 34) None, snd r)                    (* Word::new(quoted, Some(dquote)): keyword None *)
-  | AUnhandled => Err c
+  | AUnhandled => Err (Unhandled c)
   end.
 
 Definition next_token (q : str) (st : state) : outcome (option token * state) :=
@@ -280,8 +305,7 @@ Fixpoint tok_loop (fuel : nat) (q : str) (st : state) (start : N) : outcome (lis
 Definition tokenize (q : str) : outcome (list twl * state) := tok_loop (S (length q)) q init_state 0.
 
 (* ---- specification vocabulary ---- *)
-(* which source texts a token can come from; `rest` is what follows in the input (an unterminated string /
-   quoted identifier is accepted at end of input, without its closing quote) *)
+(* which source texts a token can come from; `rest` is what follows in the input *)
 Definition op_spellings (o : op) : list str :=
   match o with
   | OEq => [[61]] | ODoubleEq => [[61; 61]] | ONeq => [[33; 61]; [60; 62]] | OLt => [[60]] | OGt => [[62]]
@@ -293,8 +317,16 @@ Definition op_spellings (o : op) : list str :=
   | ORightArrow => [[61; 62]] | OExcl => [[33]] | OCaret => [[94]] | OTilde => [[126]] | OCaretAt => [[94; 64]]
   end.
 
+(* source spelling of the content of a quoted string: every quote doubled *)
+Fixpoint escape (quote : N) (body : str) : str :=
+  match body with
+  | [] => []
+  | c :: r => if c =? quote then quote :: quote :: escape quote r else c :: escape quote r
+  end.
+(* the token text `body` is the source text between the quotes with doubled quotes collapsed; what follows the
+   closing quote is not another quote (that would have been an escaped quote) *)
 Definition quoted (quote : N) (body src rest : str) : Prop :=
-  ~ In quote body /\ (src = quote :: body ++ [quote] \/ (src = quote :: body /\ rest = [])).
+  src = quote :: escape quote body ++ [quote] /\ ~ (exists r, rest = quote :: r).
 
 Definition spells (t : token) (src rest : str) : Prop :=
   match t with
